@@ -280,5 +280,52 @@ def loop_oracle(case, r):
                 return "path: model_times malformed"
         if r.get("dist_factor", 1.0) < 1.0:
             return "dist_factor: %r < 1" % r["dist_factor"]
-        # chain: each announced step starts where the last finally-accepted one ended
+        # C12 chain: each announced step starts at the current iterate; the iterate moves only to the
+        # `next` of a step announced as accepted; the number of moves is the accepted-step count; the
+        # result is the last point moved to; model times advance by the dt handed to the adopted trials
+        spec = Spec.from_json(case["spec"])
+        n, m = spec.n, spec.m
+        sc = case["sc"] or {"vw": [0] * n, "cw": [0] * m, "ow": 0}
+        import numpy as _np
+        x0u = _np.array(case["x0"], dtype=float)
+        cur = None
+        moves = 0
+        dts = []
+        for k, (zf, zt, acc) in enumerate(ann):
+            if cur is not None and zf != cur:
+                return "chain: announced step %d starts at %r but the current iterate is %r" % (k, zf, cur)
+            if cur is None and zf[:n] != list(_np.ldexp(x0u, _np.array(sc["vw"], dtype=int))):
+                return "chain: the first announced step does not start at the transformed x0"
+            cur = zf
+            nxt = ann[k + 1][0] if k + 1 < len(ann) else None
+            if nxt is None:
+                # last step: adopted iff the result is its `next`
+                nv = len(zt) - m
+                xu = list(_np.ldexp(_np.array(zt[:n]), -_np.array(sc["vw"], dtype=int)))
+                moved = acc and zt != zf and xu == r["x"] and r["nacc"] > moves
+                if moved:
+                    moves += 1
+                    dts.append(trials[k][1])
+                    cur = zt
+            elif nxt != zf or (acc and nxt == zt and zt == zf and False):
+                if nxt != zt:
+                    return "chain: iterate jumped to a point that was never announced (step %d)" % k
+                if not acc:
+                    return "chain: step %d was announced as not accepted but the iterate moved" % k
+                moves += 1
+                dts.append(trials[k][1])
+                cur = zt
+        if cur is not None:
+            xu = list(_np.ldexp(_np.array(cur[:n]), -_np.array(sc["vw"], dtype=int)))
+            yu = list(_np.ldexp(_np.array(cur[len(cur) - m:]), _np.array(sc["cw"], dtype=int) - sc["ow"])) if m else []
+            if xu != r["x"] or yu != r["y"]:
+                return "final: the returned (x, y) is not the last accepted point"
+        distinct_moves = moves
+        if r["nacc"] < distinct_moves:
+            return "counters: %d accepted steps reported but the iterate changed %d times" % (r["nacc"], distinct_moves)
+        if r["times"] and len(dts) == r["nacc"]:
+            ts = r["times"]
+            for k, d in enumerate(dts):
+                if ts[k + 1] - ts[k] != d:
+                    return "model_times: step %d advanced the model time by %r, step size used was %r" % (k, ts[k + 1] - ts[k], d)
     return None
